@@ -1,0 +1,92 @@
+//go:build verif
+
+// Contracts for the deductive verifier in /verif (govc). Comment-only file: with the
+// "verif" build tag off it is invisible to the compiler.
+package oidc
+
+//@ import oidcv1 "github.com/istio-ecosystem/authservice/config/gen/go/v1/oidc"
+
+// ---------------------------------------------------------------------------------------------
+// SessionStore: the abstract session map (C12). View[self.pay] is the content of this store.
+// Every operation may fail; on failure the session is unchanged, as-if-applied, or gone
+// (fault before / after taking effect; Redis deletes a session without creation timestamp).
+// ---------------------------------------------------------------------------------------------
+
+//@ interface SessionStore method GetTokenResponse(self, ctx, sessionID) (t, err)
+//@   modifies ghost View
+//@   ensures  frame: OnlySid(old(View), View, self.pay, sessionID)
+//@   ensures  err_nil: err != nil ==> t == nil
+//@   ensures  got: t != nil ==> old(View)[self.pay][sessionID].present && old(View)[self.pay][sessionID].hasTok && TokOf(t) == old(View)[self.pay][sessionID].tok
+//@   ensures  after: Touched(old(View)[self.pay][sessionID], View[self.pay][sessionID]) || !View[self.pay][sessionID].present
+
+//@ interface SessionStore method GetAuthorizationState(self, ctx, sessionID) (a, err)
+//@   modifies ghost View
+//@   ensures  frame: OnlySid(old(View), View, self.pay, sessionID)
+//@   ensures  err_nil: err != nil ==> a == nil
+//@   ensures  got: a != nil ==> old(View)[self.pay][sessionID].present && old(View)[self.pay][sessionID].hasAuth && AuthOf(a) == old(View)[self.pay][sessionID].auth
+//@   ensures  after: Touched(old(View)[self.pay][sessionID], View[self.pay][sessionID]) || !View[self.pay][sessionID].present
+
+//@ interface SessionStore method SetTokenResponse(self, ctx, sessionID, tokenResponse) err
+//@   requires tok_nonnil: tokenResponse != nil
+//@   modifies ghost View
+//@   ensures  frame: OnlySid(old(View), View, self.pay, sessionID)
+//@   ensures  ok: err == nil ==> SetTokPost(old(View)[self.pay][sessionID], View[self.pay][sessionID], TokOf(tokenResponse))
+//@   ensures  fail: err != nil ==> View[self.pay][sessionID] == old(View)[self.pay][sessionID] || !View[self.pay][sessionID].present || SetTokPost(old(View)[self.pay][sessionID], View[self.pay][sessionID], TokOf(tokenResponse))
+
+//@ interface SessionStore method SetAuthorizationState(self, ctx, sessionID, authorizationState) err
+//@   requires auth_nonnil: authorizationState != nil
+//@   modifies ghost View
+//@   ensures  frame: OnlySid(old(View), View, self.pay, sessionID)
+//@   ensures  ok: err == nil ==> SetAuthPost(old(View)[self.pay][sessionID], View[self.pay][sessionID], AuthOf(authorizationState))
+//@   ensures  fail: err != nil ==> View[self.pay][sessionID] == old(View)[self.pay][sessionID] || !View[self.pay][sessionID].present || SetAuthPost(old(View)[self.pay][sessionID], View[self.pay][sessionID], AuthOf(authorizationState))
+
+//@ interface SessionStore method ClearAuthorizationState(self, ctx, sessionID) err
+//@   modifies ghost View
+//@   ensures  frame: OnlySid(old(View), View, self.pay, sessionID)
+//@   ensures  absent: !old(View)[self.pay][sessionID].present ==> !View[self.pay][sessionID].present
+//@   ensures  ok: err == nil && old(View)[self.pay][sessionID].present ==> ClearPost(old(View)[self.pay][sessionID], View[self.pay][sessionID])
+//@   ensures  fail: err != nil ==> View[self.pay][sessionID] == old(View)[self.pay][sessionID] || !View[self.pay][sessionID].present || ClearPost(old(View)[self.pay][sessionID], View[self.pay][sessionID])
+
+//@ interface SessionStore method RemoveSession(self, ctx, sessionID) err
+//@   modifies ghost View
+//@   ensures  frame: OnlySid(old(View), View, self.pay, sessionID)
+//@   ensures  ok: err == nil ==> !View[self.pay][sessionID].present
+//@   ensures  fail: err != nil ==> View[self.pay][sessionID] == old(View)[self.pay][sessionID] || !View[self.pay][sessionID].present
+
+// ---------------------------------------------------------------------------------------------
+
+//@ interface SessionStoreFactory method Get(self, cfg) r
+//@   pure
+//@   ensures which: r == StoreFor(self, cfg)
+
+//@ interface SessionGenerator method GenerateSessionID(self) r
+//@   modifies ghost Issued, ghost LastSid, ghost NGen
+//@   ensures  fresh: !old(Issued)[r] && Issued == store(old(Issued), r, true) && r != "" && LastSid == r && NGen == old(NGen) + 1
+//@   ensures  afresh: r != Presented
+//@ interface SessionGenerator method GenerateNonce(self) r
+//@   pure
+//@ interface SessionGenerator method GenerateState(self) r
+//@   pure
+//@ interface SessionGenerator method GenerateCodeVerifier(self) r
+//@   pure
+
+//@ interface JWKSProvider method Get(self, ctx, cfg) (set, err)
+//@   #allocates
+//@   ensures  keys: err == nil ==> set != nil && KeysFrom(cfg, set)
+
+// A-TIME: the clock is non-decreasing; Clk is the last instant it returned
+//@ func (*Clock).Now
+//@   abstractbody
+//@   modifies ghost Clk
+//@   ensures  mono: result >= old(Clk) && Clk == result && result != TZERO
+
+//@ func ParseToken
+//@   ensures  parses: (err == nil) == JwtParses(token)
+//@   ensures  tok: err == nil ==> result != nil && JwtOf(result) == token
+//@   ensures  nil_on_err: err != nil ==> result == nil
+
+//@ func (*TokenResponse).ParseIDToken
+//@   requires t != nil
+//@   ensures  parses: (err == nil) == JwtParses(t.IDToken)
+//@   ensures  tok: err == nil ==> result != nil && JwtOf(result) == t.IDToken
+//@   ensures  nil_on_err: err != nil ==> result == nil
